@@ -406,6 +406,8 @@ class StmtMixin:
             return
         if is_const(c0, True) and not isinstance(s.test, ast.Constant) and self._unroll_concrete_while(s, env, mod, fn, exits):
             return
+        if not is_const(c0, True) and not self.quiet and self._unroll_bounded_while(s, env, mod, fn, exits):
+            return
         before_vars = dict(env.vars)
         before_heap = dict(env.heap)
         probe = env.clone()
@@ -529,6 +531,71 @@ class StmtMixin:
                 return True
         if s.orelse:
             self.block(s.orelse, env, mod, fn, exits)
+        return True
+
+    def _unroll_bounded_while(self, s, env, mod, fn, exits, limit=16):
+        """A while loop whose test is a conjunction with a concretely bounded part (`idx <= 7 + n and idx < len(buf)` with
+        constant idx and n) ends after a known number of iterations whatever the symbolic part says: it is executed
+        iteration by iteration, each under the symbolic rest of its test, and the states in which that rest failed
+        earlier are joined with the final one.  A quiet dry run decides whether the loop is of that kind."""
+        if s.orelse or any(isinstance(n_, (ast.Break, ast.Continue, ast.Return)) for st_ in s.body for n_ in ast.walk(st_)):
+            return False
+        dry = env.clone()
+        n = 0
+        self.quiet += 1
+        try:
+            while True:
+                c = truthy(self.ev(s.test, dry.clone(), mod, fn))
+                if is_const(c, False):
+                    break
+                n += 1
+                if n > limit:
+                    return False
+                if c.k != "const":
+                    dry.add_fact(c)
+                    if dry.dead:
+                        break
+                self.block(s.body, dry, mod, fn, [])
+                if dry.dead:
+                    return False
+        except Unsupported:
+            return False
+        finally:
+            self.quiet -= 1
+        if n == 0:
+            return False
+        outs = []
+        base = len(env.pc)
+        for _ in range(n):
+            c = truthy(self.ev(s.test, env.clone(), mod, fn))
+            if is_const(c, False):
+                break
+            if c.k != "const":
+                e_exit = env.clone()
+                nc = un("not", c)
+                e_exit.add_fact(nc)
+                e_exit.pc.append(nc)
+                if not e_exit.dead:
+                    outs.append(e_exit)
+                env.add_fact(c)
+                env.pc.append(c)
+                if env.dead:
+                    break
+            self.block(s.body, env, mod, fn, exits)
+            if env.dead:
+                break
+        live = ([env.clone()] if not env.dead else []) + outs
+        if not live:
+            env.dead = True
+            return True
+        if len(live) == 1:
+            j = live[0]
+        else:
+            j = join_envs(live, [conj(e.pc[base:]) if e.pc[base:] else TRUE for e in live])
+        pc = list(env.pc[:base])
+        env.adopt(j)
+        env.pc = pc
+        env.dead = False
         return True
 
     def infer_loop_invariants(self, s, env, head, mod_vars, entry_values, mod, fn):
@@ -693,12 +760,26 @@ class StmtMixin:
                 henv.vars[h.name] = self.new_object("<exception>", symbolic=True, root=None, path=h.name)
             caught = list(dict.fromkeys(frame.get("excs", {}).get(hi, []))) or list(names or ["Exception"])
             self.handler_excs.append(caught)
+            nr_h = len(self.raises)
             try:
                 self.block(h.body, henv, mod, fn, exits)
             finally:
                 self.handler_excs.pop()
             if not henv.dead:
                 outs.append(henv)
+            elif s.finalbody and not self.quiet:
+                # the handler leaves by raising: the finally suite still runs, in the state the handler reached; what it
+                # stores belongs to the path of that raise (the refusal rules look at it)
+                seqs = frozenset(r_["seq"] for r_ in self.raises[nr_h:] if not r_["caught"])
+                if seqs:
+                    fenv = henv.clone()
+                    fenv.dead = False
+                    old_ff = getattr(self, "_finally_for", None)
+                    self._finally_for = seqs
+                    try:
+                        self.block(s.finalbody, fenv, mod, fn, [])
+                    finally:
+                        self._finally_for = old_ff
         if s.finalbody:
             for o in outs:
                 self.block(s.finalbody, o, mod, fn, exits)
